@@ -9,6 +9,11 @@ mod c24;
 mod c25;
 mod c23;
 mod c13;
+mod seg;
+mod c08;
+mod c26;
+mod c12;
+mod c21;
 
 use util::Ctx;
 
@@ -42,6 +47,12 @@ fn main() {
         "c23" => c23::run(&mut ctx),
         "c13" => c13::run_c13(&mut ctx),
         "c14" => c13::run_c14(&mut ctx),
+        "c08" => c08::run(&mut ctx),
+        "c26" => c26::run(&mut ctx),
+        "c12" => c12::run(&mut ctx),
+        "c21" => c21::run(&mut ctx),
+        "c17" => seg::run_c17(&mut ctx),
+        "c18" => seg::run_c18(&mut ctx),
         other => { eprintln!("unknown family {other}"); std::process::exit(2); }
     }
     ctx.finish();
